@@ -10,6 +10,16 @@
      grid t0 p k            t0 + k*p, the k-th grid point
      final s ops            object and clock after the operations
      Free                   free(), or __del__
+     Enter                  __enter__ of the with-statement (at the instant of
+                            construction in `with NotifierDelay(P) as d:`, or
+                            any time later in `d = NotifierDelay(P); ...; with d:`)
+     entered_late setup bs  Body setup :: Enter :: sched bs -- the object is
+                            built, set-up work takes [setup] us, then the
+                            with-block is entered and the loop runs in it
+     no_release ops         ops contains no Free and no Exit (bodies, waits and
+                            __enter__ in any order and number)
+     without_enter ops      ops with every Enter removed
+     enter_log s ops        one bool per __enter__: it returned the object itself
      Exit exc               __exit__ of the with-statement; exc = the exception
                             that leaves the block (None: there is none)
      leave_with h           Exit, for the way h the block is left: EndOfBlock,
@@ -181,6 +191,75 @@ Proof.
   exact (fun n P t0 => conj (create_from_seconds n P t0) (create_opt_rejects P t0)).
 Qed.
 
+(* __enter__ returns the object itself and changes nothing: not the object
+   (in particular not its expiry: the grid is NOT re-anchored at the instant the
+   with-block is entered), not the HAL's alarm, not the clock -- in every state,
+   live or released. *)
+Theorem C16_enter_changes_nothing :
+  (forall d, enter d = (d, true)) /\ (forall s, step s Enter = s).
+Proof. exact (conj enter_is_identity step_enter). Qed.
+
+(* Hence __enter__ is invisible wherever and however often it occurs, in ANY
+   operation list (with releases or not) from ANY state: removing every Enter
+   changes neither the final object and clock, nor the log of the waits, nor
+   what comes out of the __exit__s; the snapshot an observer takes right after
+   an __enter__ is the one before it; every __enter__ returns the object. *)
+Theorem C16_enter_transparent : forall s ops,
+  final s (without_enter ops) = final s ops /\
+  wait_log s (without_enter ops) = wait_log s ops /\
+  exit_log s (without_enter ops) = exit_log s ops /\
+  snaps s (Enter :: ops) = snap_of s :: snaps s ops /\
+  enter_log s ops = map (fun _ => true) (filter is_enter ops).
+Proof.
+  exact (fun s ops => conj (final_without_enter ops s) (conj (wait_log_without_enter ops s)
+           (conj (exit_log_without_enter ops s) (conj (snaps_enter s ops) (enter_log_spec ops s))))).
+Qed.
+
+(* The grid under ANY use that does not release the object -- bodies, waits and
+   __enter__ in any order and number: set-up work before the with-block is
+   entered, several bodies or none between two waits, the block entered twice
+   ...: the (i+1)-th wait returns at max(t_call, t0 + (i+1)*p) with t0 the
+   instant of CONSTRUCTION: never early, exactly on the grid point when called
+   by then, at once when called later. *)
+Theorem C16_any_use_on_grid : forall p t0 ops i c r,
+  no_release ops = true ->
+  nth_error (wait_log (create p t0, t0) ops) i = Some (c, r) ->
+  r = Z.max c (grid t0 p (S i)) /\ grid t0 p (S i) <= r /\
+  (c <= grid t0 p (S i) -> r = grid t0 p (S i)) /\
+  (grid t0 p (S i) <= c -> r = c).
+Proof. exact any_use_on_grid. Qed.
+
+(* ... and after it the alarm the HAL holds is the grid point after the last
+   wait, the object is live, its period unchanged, nothing released. *)
+Theorem C16_any_use_expiry : forall p t0 ops,
+  no_release ops = true ->
+  let d := fst (final (create p t0, t0) ops) in
+  expiry d = grid t0 p (S (length (wait_log (create p t0, t0) ops))) /\
+  alarm d = Some (expiry d) /\ live d = true /\ period d = p /\ released d = 0%nat.
+Proof. exact any_use_expiry. Qed.
+
+(* `d = NotifierDelay(P)` at t0; set-up work of ANY duration; `with d:` around
+   the loop: the (i+1)-th wait returns at max(t_call, t0 + (i+1)*p) -- the grid
+   of the construction instant, not of the instant the block is entered; and
+   (non-empty loop) log, object and clock are exactly those of the plain loop
+   whose first body is longer by the set-up time, so every theorem about
+   [sched] above speaks about this use too. *)
+Theorem C16_entered_late : forall p t0 setup,
+  (forall bs i c r,
+     nth_error (wait_log (create p t0, t0) (entered_late setup bs)) i = Some (c, r) ->
+     r = Z.max c (grid t0 p (S i)) /\ grid t0 p (S i) <= r /\
+     (c <= grid t0 p (S i) -> r = grid t0 p (S i)) /\
+     (grid t0 p (S i) <= c -> r = c)) /\
+  (forall b bs,
+     wait_log (create p t0, t0) (entered_late setup (b :: bs)) =
+       wait_log (create p t0, t0) (sched ((setup + b) :: bs)) /\
+     final (create p t0, t0) (entered_late setup (b :: bs)) =
+       final (create p t0, t0) (sched ((setup + b) :: bs))).
+Proof.
+  exact (fun p t0 setup => conj (entered_late_on_grid p t0 setup)
+                                (entered_late_is_sched p t0 setup)).
+Qed.
+
 (* ------------------------------------------------------------------ *)
 (* Non-vacuity. *)
 
@@ -224,6 +303,26 @@ Example C16_nv_with_block :
   exit_log s0 ops = [true].
 Proof. vm_compute. repeat split; reflexivity. Qed.
 
+(* period 20 ms, built at t0 = 0.5 s, the with-block entered 7 ms later, bodies
+   5 ms, 50 ms (overrun), 1 ms, 1 ms: the first wait returns at t0 + 20 ms
+   (NOT 20 ms after the entry, 527000), the fourth at t0 + 4*20 ms; the HAL's
+   alarm is untouched by the entry; the block is then left by an exception and
+   a later wait returns at once.  Second: entered 30 ms (> one period) after
+   construction: the first wait is late and returns at once, the second at
+   t0 + 2*20 ms. *)
+Example C16_nv_entered_late :
+  let s0 := (create 20000 500000, 500000) in
+  let ops := entered_late 7000 [5000; 50000; 1000; 1000] in
+  no_release ops = true /\
+  wait_log s0 ops = [(512000, 520000); (570000, 570000); (571000, 571000); (572000, 580000)] /\
+  snaps s0 (ops ++ [leave_with (Raised RuntimeErr); Body 100; Wait])
+    = [(507000, Some 520000, 0%nat);
+       (520000, Some 540000, 0%nat); (570000, Some 560000, 0%nat); (571000, Some 580000, 0%nat);
+       (580000, Some 600000, 0%nat); (580000, None, 1%nat); (580100, None, 1%nat)] /\
+  enter_log s0 ops = [true] /\
+  wait_log s0 (entered_late 30000 [0; 1000]) = [(530000, 530000); (531000, 540000)].
+Proof. vm_compute. repeat split; reflexivity. Qed.
+
 (* the double nearest to 0.001001 s is 4616297704445815 / 2^62, just BELOW
    1001 us: it is within half a microsecond of 1001, rounds to 1001, and the
    constructor accepts it -- while truncation (the code before the D8 repair)
@@ -252,3 +351,8 @@ Print Assumptions C16_exit_never_swallows.
 Print Assumptions C16_released_once.
 Print Assumptions C16_period_whole_us.
 Print Assumptions C16_constructor.
+Print Assumptions C16_enter_changes_nothing.
+Print Assumptions C16_enter_transparent.
+Print Assumptions C16_any_use_on_grid.
+Print Assumptions C16_any_use_expiry.
+Print Assumptions C16_entered_late.
